@@ -70,6 +70,9 @@ from beartype.vale import IsEqual as _IsEqual, IsInstance as _IsInstance  # noqa
 AV1 = T.Annotated[int, _IsEqual[1]]
 AV2 = T.Annotated[int, _IsEqual[2]]
 AVB = T.Annotated[int, _IsInstance[bool]]
+_V1 = _IsEqual[1]
+AVV = T.Annotated[int, _V1, _V1]                       # the same validator twice (what nesting Annotated aliases flattens to)
+AVW = T.Annotated[int, _V1, _IsInstance[bool]]         # same count, one validator the other side lacks
 C = A.Callable
 L = T.Literal
 An = T.Annotated
@@ -80,7 +83,8 @@ def fixed_pool(big: bool) -> list:
     """The representative pool: seed-independent, every wrapper class, depth <= 2."""
     leaves = [int, bool, str, U0, U1, type(None), object, L[1], L[True], L['a'], L[1, 'a'], NT, TV, TC, list, tuple,
               A.Sequence, C]
-    H = list(leaves) + [T.Any, float, TF, TB, TO, NU, NN, NL, dict, A.Mapping, A.Iterable, AV1, AV2, AVB]
+    H = list(leaves) + [T.Any, float, TF, TB, TO, NU, NN, NL, dict, A.Mapping, A.Iterable, AV1, AV2, AVB, AVV, AVW,
+                        An[int, 'x', 'x'], list[AVV], list[AVW]]
     H += [list[int], list[bool], list[object], list[T.Any], T.List[int], A.Sequence[int], A.Sequence[bool], A.Iterable[int],
           A.Collection[int], set[int], frozenset[bool], A.Set[int],
           tuple[int, ...], tuple[bool, ...], tuple[object, ...], tuple[int, int], tuple[bool, int], tuple[int], tuple[()],
@@ -886,7 +890,7 @@ def children_oracle(w):
 
 # ----------------------------------------------------------------------------- replay
 NAMES = {'TV_2': TV_2, 'NT_2': NT_2, 'U0_2': U0_2, 'U0': U0, 'U1': U1, 'TV': TV, 'TC': TC, 'TF': TF, 'TB': TB, 'TO': TO, 'NT': NT, 'NU': NU, 'NN': NN, 'NL': NL,
-         'AV1': AV1, 'AV2': AV2, 'AVB': AVB}
+         'AV1': AV1, 'AV2': AV2, 'AVB': AVB, 'AVV': AVV, 'AVW': AVW}
 
 
 def spec(h):
